@@ -271,6 +271,11 @@ def check_case(case, col=None):
     toggle_history(case, nat(p), ic)
     if not text_mode and ascii_p:
         toggle_history(case, p, ic)
+    # ... and the same *list object* used for every call (a module-level PATTERNS constant)
+    shared = [nat(p)]
+    toggle_history(case, shared, ic)
+    if len(shared) != 1 or type(shared[0]) is not type(nat(p)) or shared[0] != nat(p):
+        raise Violation('argument-mutated', 'the pattern list handed to expect() is %r afterwards, it was %r' % (shared, [nat(p)]))
     # --- invalid objects
     bad = {'int': 7, 'float': 1.5, 'none': None, 'nested': [nat('a')], 'object': object(),
            'class': ValueError, 'wrongstr': (b'a' if text_mode else None)}[case['bad']]
